@@ -17,7 +17,8 @@ The translation is syntax directed and thin.  The Python is dynamically typed an
 `V` (`MalVerif/Py/PreludeVisitor.lean`), every Python operation is one prelude function, one Python statement
 becomes one `do` statement (sub-expressions with control flow of their own — conditional expressions, `and` / `or`,
 `:=`, comprehensions, `pop` — become the statements Python executes for them, in Python's evaluation order).
-Everything that is not recognised raises `Unsupported`; the translator never guesses.  Refused in particular:
+Everything that is not recognised raises `Unsupported`; the translator never guesses.  Dropped, and only that: docstrings, `__init__` (it stores the compiler),
+calls on `logger` whose arguments contain no call.  Refused in particular:
   * a `for` over a live container whose body may change that container;
   * aliasing of a container that is changed in place afterwards (`x = y`, `d[k] = y`, `l.append(y)` followed by a
     mutation of `y`): containers are values in the Lean, so only aliasing that cannot be observed is let through;
@@ -743,6 +744,10 @@ class Tr:
     def stmt(self, st):
         if isinstance(st, ast.Expr) and isinstance(st.value, ast.Constant) and isinstance(st.value.value, str):
             return                                             # docstring
+        if isinstance(st, ast.Expr) and isinstance(st.value, ast.Call) and isinstance(st.value.func, ast.Attribute) \
+                and isinstance(st.value.func.value, ast.Name) and st.value.func.value.id == 'logger' \
+                and not any(isinstance(n, (ast.NamedExpr, ast.Call)) for a in st.value.args for n in ast.walk(a)):
+            return                                             # logging (arguments without calls / assignments): dropped
         if isinstance(st, ast.Pass): self.emit('pure ()'); return
         if isinstance(st, ast.Continue):
             self.emit('continue'); return
